@@ -81,7 +81,7 @@ def edge_literals(body, bb):
                 out[tb] = norm_literal(('is', c[1], variants[v]), True)
             elif isdiscr:
                 out[tb] = [(('discr_eq', c[1], ('const', v)), True)]
-            elif v in (0, 1) and _boolish(body, t['d']):
+            elif v in (0, 1) and _boolish(body, t):
                 out[tb] = norm_literal(c, bool(v))
             else:
                 out[tb] = norm_literal(('eq', c, ('const', v)), True)
@@ -92,9 +92,9 @@ def edge_literals(body, bb):
                     out[els] = norm_literal(('is', c[1], rest[0]), True)
                 else:
                     out[els] = [(('is', c[1], variants[v]), False) for v in vals if v < len(variants)]
-            elif _boolish(body, t['d']) and vals == [0]:
+            elif _boolish(body, t) and vals == [0]:
                 out[els] = norm_literal(c, True)
-            elif _boolish(body, t['d']) and vals == [1]:
+            elif _boolish(body, t) and vals == [1]:
                 out[els] = norm_literal(c, False)
             else:
                 lits = []
@@ -104,7 +104,10 @@ def edge_literals(body, bb):
     return out
 
 
-def _boolish(body, op):
+def _boolish(body, t):
+    if 'dty' in t:
+        return t['dty'] == 'bool'
+    op = t['d']
     if op['k'] in ('copy', 'move') and not op['pl']['p']:
         return body.local_ty(op['pl']['l']) == 'bool'
     if op['k'] == 'const':
